@@ -178,6 +178,8 @@ def checks : List (String × (Unit → Bool)) :=
       && Ed25519.signPhWith ops sk (h "616263") (some []) == some sig
       && Ed25519.verifyPhWith ops false true pk (h "616263") none sig
       && !Ed25519.verifyPhWith ops false false pk (h "616263") (some [1]) sig
+      -- contexts longer than 255 bytes are rejected
+      && !Ed25519.verifyPhWith ops false false pk (h "616263") (some (List.replicate 256 0)) sig
       && (Ed25519.signPhWith ops sk (h "616263") (some (List.replicate 256 0))).isNone
       && !Ed25519.verifyWith ops false false pk (h "616263") sig),
     ("ed25519.scalar_checks", fun (_ : Unit) =>
@@ -272,13 +274,13 @@ def checks : List (String × (Unit → Bool)) :=
       && Serde.jsonDe .edwards (json32 ",1") == .err
       && Serde.jsonDe .edwards (json32 "" ++ [0x31]) == .err
       && Serde.jsonDe .vk (json32 ",1") == .err
-      -- visitor quirk of VerifyingKey/SigningKey: a non-u8 number or a trailing comma ends the
-      -- `remaining` count without an error
-      && Serde.jsonDe .vk (json32 ",300") == .ok (h vkBase)
-      && Serde.jsonDe .vk (json32 ",") == .ok (h vkBase)
+      -- any continuation after the 32nd element is an error for VerifyingKey/SigningKey
+      && Serde.jsonDe .vk (json32 ",300") == .err
+      && Serde.jsonDe .vk (json32 ",") == .err
       && Serde.jsonDe .vk (json32 ",300,1") == .err
-      && Serde.jsonDe .vk (json32 ",\"a\"") == .ok (h vkBase)
-      && Serde.jsonDe .vk (json32 ",null") == .ok (h vkBase)
+      && Serde.jsonDe .vk (json32 ",\"a\"") == .err
+      && Serde.jsonDe .vk (json32 ",null") == .err
+      && Serde.jsonDe .sk (json32 ",1.") == .err
       && Serde.jsonDe .vk (json32 ",[]") == .err
       && Serde.jsonDe .edwards (json32 ",null") == .err
       && Serde.jsonDe .scalar "[1,2]".toUTF8.toList == .err
